@@ -194,6 +194,72 @@ Ltac sgn_args_neg w x y z :=
             | replace A with ((4 * w) * z) by ring; rewrite (Rsgn_neg_scale (4 * w) z) by lra ]
   end.
 
+(* ---- facts about the radicals and sign arguments of a (large) goal, collected as hypotheses without rewriting it ---- *)
+Ltac rad_fact e p :=
+  lazymatch e with
+  | ?n / ?d =>
+      let H := fresh "Hrq" in
+      assert (H : 0 < d -> sqrt e = 2 * Rabs p)
+        by (let Hd := fresh in intro Hd; replace e with (4 * (p * p)) by rad_eqf; apply sqrt_4sq)
+  | _ =>
+      let H := fresh "Hrp" in
+      assert (H : sqrt e = 2 * Rabs p) by (replace e with (4 * (p * p)) by rad_eq; apply sqrt_4sq)
+  end.
+Ltac rad_facts w x y z :=
+  repeat match goal with
+  | |- context [sqrt ?e] =>
+      lazymatch e with context [sqrt _] => fail | _ => idtac end;
+      lazymatch goal with
+      | H : sqrt e = _ |- _ => fail
+      | H : _ -> sqrt e = _ |- _ => fail
+      | _ => idtac
+      end;
+      first [ rad_fact e w | rad_fact e x | rad_fact e y | rad_fact e z ]
+  end.
+Ltac sgn_fact A w v Hw :=
+  let H := fresh "Hsg" in
+  assert (H : Rsgn A * Rabs v = Rsgn w * v) by (replace A with (4 * (w * v)) by ring; apply (sgn_recover w v Hw)).
+Ltac sgn_facts w x y z Hw :=
+  repeat match goal with
+  | |- context [Rsgn ?A] =>
+      lazymatch goal with H : Rsgn A * _ = _ |- _ => fail | _ => idtac end;
+      first [ sgn_fact A w x Hw | sgn_fact A w y Hw | sgn_fact A w z Hw ]
+  end.
+(* use the collected radical facts in a (small) leaf *)
+Ltac rad_rw :=
+  repeat match goal with
+  | H : sqrt ?e = _ |- context [sqrt ?e] => rewrite H
+  | H : _ -> sqrt ?e = _ |- context [sqrt ?e] => rewrite (H ltac:(lra))
+  end.
+(* turn Rsgn A_v, Rabs v, Rabs w, Rsgn w into variables constrained by the collected equations and close the
+   leaf: every remaining (norm) radicand is 1, every component is sgn(w) * component *)
+Ltac gen_atoms w :=
+  repeat match goal with
+  | H : Rsgn ?A * Rabs ?v = Rsgn w * ?v |- _ => generalize dependent (Rsgn A); generalize dependent (Rabs v); intros
+  end;
+  generalize dependent (Rabs w); generalize dependent (Rsgn w); intros.
+Ltac atoms_field w x y z Hu :=
+  match goal with
+  | Hx : _ * _ = ?sw * x, Hy : _ * _ = ?sw * y, Hz : _ * _ = ?sw * z, Ha : _ = ?sw * w, Hs : ?sw * ?sw = 1 |- _ =>
+     field [Hx Hy Hz Ha Hs Hu]
+  end.
+Ltac atoms_finish w x y z Hu :=
+  gen_atoms w;
+  repeat (let e := goal_rad in replace e with 1 by (atoms_field w x y z Hu); rewrite !sqrt_1);
+  unfold qsc; val_eq; atoms_field w x y z Hu.
+(* the three standing facts about w <> 0 used by atoms_finish *)
+Ltac w_facts w Hw :=
+  let Haw := fresh "Haw" in let Haw2 := fresh "Haw2" in let Hsw := fresh "Hsw" in
+  pose proof (Rabs_pos_lt w Hw) as Haw; pose proof (Rabs_as_sgn w) as Haw2;
+  pose proof (is_sign_sq _ (Rsgn_is_sign w Hw)) as Hsw.
+(* destruct the gates at the head of the goal that do not involve a radical *)
+Ltac plain_gates :=
+  repeat lazymatch goal with
+  | |- (if ?g then _ else _) = _ => lazymatch g with context [sqrt _] => fail | _ => destruct g as [?|?] end
+  end.
+(* gates  |e| <= c  with e identically 0 under the unit hypothesis (the SO(3) checks of the constructors) *)
+Ltac so3_gates := repeat gate_abs0.
+
 (* abstract  Rsgn v, Rabs v  (v = x, y, z) into variables related by  sgn * abs = v, and finish a leaf of a
    sign-recovering method (Chiaverini, Sarabandi):  norm radicand = 1, components = s * q *)
 Ltac sgn_atoms_finish x y z Hu :=
@@ -214,4 +280,4 @@ Ltac abs_lra :=
   | |- context [Rabs ?a] => first [ rewrite (Rabs_right a) by lra | rewrite (Rabs_left a) by lra ]
   end.
 (* finish a leaf whose radicals are gone except the final norm: radicand = 1, components by field *)
-Ltac norm_finish := rad_one; unfold qsc; val_eq; (field [] || field); repeat split; lra.
+Ltac norm_finish := repeat rad_one; unfold qsc; val_eq; (field [] || field); repeat split; lra.
